@@ -179,7 +179,7 @@ class FaultLog:  # 0418  # TODO: use a NamedTuple
         new_map |= {
             k + diff: v  # type: ignore[misc]
             for k, v in self._map.items()
-            if (k >= idx or v < dtm) and k + diff <= self._MAX_LOG_IDX
+            if v < dtm and k + diff <= self._MAX_LOG_IDX  # drop any stale (newer) entries
         }
 
         return new_map
